@@ -134,7 +134,7 @@ class Explorer:
                  heap: Optional[Dict[Term, Term]] = None, facts: Optional[Dict[Term, bool]] = None,
                  unroll: Tuple[int, ...] = (0, 1, 2), inline: int = 0, inline_ok=None, max_paths: int = 20000,
                  truthy_elems: bool = False, nonempty: Optional[Set[Term]] = None,
-                 self_term: Optional[Term] = None, track_heap: bool = True):
+                 self_term: Optional[Term] = None, track_heap: bool = True, follow=None, _depth: int = 0):
         self.ctx = ctx
         self.fn = fn
         self.unroll = tuple(sorted(set(unroll)))
@@ -143,6 +143,8 @@ class Explorer:
         self.max_paths = max_paths
         self.truthy_elems = truthy_elems
         self.self_term = self_term
+        self.follow = follow             # predicate(FunctionInfo): explore the callee's paths in place of an opaque call
+        self._depth = _depth
         self.track_heap = track_heap     # False: attribute / item reads stay symbolic (stores are still recorded as events)
         self.init = State(dict(env or {}), dict(heap or {}), dict(facts or {}), [], [], set(nonempty or ()))
         self.paths_enumerated = 0
@@ -260,10 +262,64 @@ class Explorer:
     def x_ClassDef(self, s, st):
         return [(st, None)]
 
+    def _follow_call(self, call: ast.expr, st: State):
+        """If `call` is a call of a repository function that the `follow` predicate selects, explore the callee in place:
+        returns [(state after the callee, returned term)] - one per callee path - or None when the call is not followed.
+        (Helper extraction is thereby invisible to path rules: the callee's events are spliced into the caller's path.)"""
+        if self.follow is None or not isinstance(call, ast.Call) or self._depth >= 3:
+            return None
+        callees = [c for c in self.ctx.cg.resolve_call(self.fn, call) if c.kind == "fn"]
+        if len(callees) != 1 or callees[0].via == "name-fallback":
+            return None
+        callee = callees[0].fn
+        if callee is self.fn or not self.follow(callee) or callee.is_lambda:
+            return None
+        from .callgraph import bind_args
+        params = callee.call_params()
+        binding, exact = bind_args(params, call)
+        if not exact:
+            return None
+        n = self.normalizer(st)
+        env = {}
+        for prm in params:
+            if prm.name in binding:
+                env[prm.name] = n.norm(binding[prm.name])
+            elif prm.default is not None:
+                env[prm.name] = Normalizer(self.ctx, callee, {}, {}).norm(prm.default)
+            else:
+                return None
+        recv = None
+        if callee.binds_self and isinstance(call.func, ast.Attribute):
+            f = call.func
+            if isinstance(f.value, ast.Call) and isinstance(f.value.func, ast.Name) and f.value.func.id == "super":
+                recv = n.lookup(self.fn.self_name or "self")
+            else:
+                recv = n.norm(f.value)
+        sub = Explorer(self.ctx, callee, env=env, heap=st.heap, facts=st.facts, unroll=self.unroll, inline=self.inline,
+                       inline_ok=self.inline_ok, max_paths=self.max_paths, truthy_elems=self.truthy_elems,
+                       nonempty=st.nonempty, self_term=recv, track_heap=self.track_heap, follow=self.follow,
+                       _depth=self._depth + 1)
+        out = []
+        for pa in sub.run():
+            if pa.outcome == "raise":
+                continue
+            ns = st.copy()
+            ns.events.extend(pa.state.events)
+            ns.facts.update(pa.state.facts)
+            ns.assumptions.extend(pa.state.assumptions)
+            ns.heap = dict(pa.state.heap) if self.track_heap else ns.heap
+            value = pa.value if pa.outcome == "return" and pa.value is not None else T.NONE
+            out.append((ns, value))
+        self._cap(len(out))
+        return out or None
+
     def x_Expr(self, s, st):
         v = s.value
         if isinstance(v, ast.Constant):
             return [(st, None)]
+        followed = self._follow_call(v, st)
+        if followed is not None:
+            return [(ns, None) for ns, _ in followed]
         n = self.normalizer(st)
         if isinstance(v, (ast.Yield, ast.YieldFrom)):
             t = n.norm(v)
@@ -312,6 +368,15 @@ class Explorer:
             del st.facts[f]
 
     def x_Assign(self, s, st):
+        followed = self._follow_call(s.value, st)
+        if followed is not None:
+            out = []
+            for ns, val in followed:
+                ns.add(Event("assign", s, val))
+                for tg in s.targets:
+                    self._assign_target(tg, val, ns, s)
+                out.append((ns, None))
+            return out
         value = self.normalizer(st).norm(s.value)
         if len(s.targets) == 1 and isinstance(s.targets[0], (ast.Tuple, ast.List)) and value[0] == "tuple" \
                 and len(value[1]) == len(s.targets[0].elts) and not any(isinstance(e, ast.Starred) for e in s.targets[0].elts):
@@ -355,6 +420,9 @@ class Explorer:
         return [(st, None)]
 
     def x_Return(self, s, st):
+        followed = self._follow_call(s.value, st) if s.value is not None else None
+        if followed is not None:
+            return [(ns, ("return", val, s)) for ns, val in followed]
         v = self.normalizer(st).norm(s.value) if s.value is not None else T.NONE
         return [(st, ("return", v, s))]
 
